@@ -12,6 +12,7 @@ import (
 	"reflect"
 	"regexp"
 	"sort"
+	"strconv"
 	"strings"
 	"sync"
 	"testing"
@@ -61,6 +62,10 @@ func TestVerifC01(t *testing.T) {
 		K = 8
 	}
 	base := verifrep.Seed()
+	// children 2j and 2j+1 form a pair that runs the same histories in two processes
+	if c, err := strconv.Atoi(os.Getenv("VERIF_CHILD")); err == nil && c%2 == 1 {
+		base--
+	}
 	n := verifrep.Cases(100)
 	digests := map[string]string{}
 	var seeds []histParams
@@ -75,6 +80,14 @@ func TestVerifC01(t *testing.T) {
 			p.Garbage = 0.02
 			seeds = append(seeds, histParams{Seed: seed, Params: p})
 		}
+	}
+	if os.Getenv("VERIF_C01_REVERSE") == "1" {
+		// the partner process runs the same histories in the opposite order: what ran
+		// before in the same process must not influence an instance
+		for a, b := 0, len(seeds)-1; a < b; a, b = a+1, b-1 {
+			seeds[a], seeds[b] = seeds[b], seeds[a]
+		}
+		rep.Obs("reverse-order-process", 1)
 	}
 	for ci, hp := range seeds {
 		hist := verifgen.New(hp.Seed, hp.Params).History()
